@@ -729,6 +729,85 @@ func c13PartitionString(t *c13Trace, mask int) string {
 	return b.String()
 }
 
+// c13Class groups command kinds by the metadb mechanism they go through; divergence fingerprints name
+// the classes of the first and the last command of the smallest batch that still diverges.
+func c13Class(kind string) string {
+	switch kind {
+	case "user-upsert", "user-create":
+		return "user"
+	case "chan-create", "chan-upsert", "chan-patch":
+		return "channel-write"
+	case "chan-del":
+		return "channel-delete"
+	case "sub-add", "sub-rm":
+		return "subscribers"
+	case "rtm-upsert", "rtm-create", "rtm-del":
+		return "runtime-meta"
+	case "ret-adv":
+		return "retention"
+	case "mig-create", "mig-create-terminal", "mig-fail", "mig-abort":
+		return "task-lifecycle"
+	case "mig-gc":
+		return "task-gc"
+	}
+	return kind
+}
+
+// probeBatch applies commands 0..a-1 one per batch and a..b as one batch on a fresh replica and reports how the
+// batch differs from the reference: "result" (first differing command returned), "state", "error" or "".
+func (s *c13Sys) probeBatch(t *c13Trace, a, b int) (string, int) {
+	node := c13Acquire()
+	defer node.release()
+	for i := 0; i < a; i++ {
+		if _, err := node.apply(t.cmds[i:i+1], uint64(i+1)); err != nil {
+			return "error", i
+		}
+	}
+	res, err := node.apply(t.cmds[a:b+1], uint64(a+1))
+	if err != nil || len(res) != b-a+1 {
+		return "error", a
+	}
+	for i := a; i <= b; i++ {
+		if !bytes.Equal(res[i-a], t.res[i]) {
+			return "result", i
+		}
+	}
+	if snap, _ := node.state(); !bytes.Equal(snap, t.snaps[b+1]) {
+		return "state", b
+	}
+	return "", 0
+}
+
+// blameResult finds the smallest batch ending at command v (inside start..v) that still changes v's result.
+func (s *c13Sys) blameResult(t *c13Trace, start, v int) (int, int) {
+	for a := v - 1; a >= start; a-- {
+		if sym, at := s.probeBatch(t, a, v); sym == "result" && at == v {
+			return a, v
+		}
+	}
+	return start, v
+}
+
+// blameState finds the smallest batch inside start..end whose results all equal the reference but whose state differs.
+func (s *c13Sys) blameState(t *c13Trace, start, end int) (int, int) {
+	for size := 2; size < end-start+1; size++ {
+		for a := start; a+size-1 <= end; a++ {
+			if sym, _ := s.probeBatch(t, a, a+size-1); sym == "state" {
+				return a, a + size - 1
+			}
+		}
+	}
+	return start, end
+}
+
+func c13Range(t *c13Trace, a, b int) string {
+	var l []string
+	for i := a; i <= b; i++ {
+		l = append(l, t.cmds[i].label)
+	}
+	return "[" + strings.Join(l, " | ") + "]"
+}
+
 func (s *c13Sys) runPartition(t *c13Trace, mask int) error {
 	s.partitionRuns.Add(1)
 	node := c13Acquire()
@@ -775,7 +854,10 @@ func (s *c13Sys) runPartition(t *c13Trace, mask int) error {
 		stale := false
 		for i := range batch {
 			if !bytes.Equal(res[i], t.res[start+i]) {
-				return mc.Violatef("C13:batch-partition-changes-result:"+kind, "%s: command %d (%s) returned %q, but %q when every command is its own batch", where, start+i, batch[i].label, c13ResClass(res[i]), c13ResClass(t.res[start+i]))
+				a, v := s.blameResult(t, start, start+i)
+				return mc.Violatef("C13:batch-changes-result:"+c13Class(t.cmds[a].kind())+"+"+c13Class(t.cmds[v].kind()),
+					"%s: command %d (%s) returned %q, but %q when every command is its own batch; smallest batch that still changes this result: %s applied after the %d commands before it one per batch",
+					where, start+i, batch[i].label, c13ResClass(res[i]), c13ResClass(t.res[start+i]), c13Range(t, a, v), a)
 			}
 			if string(res[i]) == fsm.ApplyResultStaleMeta {
 				stale = true
@@ -785,7 +867,10 @@ func (s *c13Sys) runPartition(t *c13Trace, mask int) error {
 			s.multiBatchWithStale.Add(1)
 		}
 		if !bytes.Equal(snap, t.snaps[end+1]) {
-			return mc.Violatef("C13:batch-partition-changes-state:"+kind, "%s: after batch %d..%d the snapshot (%d bytes) differs from the one-per-batch snapshot (%d bytes) although all results are equal: %s", where, start, end, len(snap), len(t.snaps[end+1]), c13SnapDiff(t.snaps[end+1], snap))
+			a, b := s.blameState(t, start, end)
+			return mc.Violatef("C13:batch-changes-state:"+c13Class(t.cmds[a].kind())+"+"+c13Class(t.cmds[b].kind()),
+				"%s: after batch %d..%d the snapshot (%d bytes) differs from the one-per-batch snapshot (%d bytes) although all results are equal; smallest batch that still changes the state: %s applied after the %d commands before it one per batch; %s",
+				where, start, end, len(snap), len(t.snaps[end+1]), c13Range(t, a, b), a, c13SnapDiff(t.snaps[end+1], snap))
 		}
 		if err := c13CheckApplied(prevApplied, a, uint64(start+1), res, kind, where); err != nil {
 			return err
@@ -925,9 +1010,12 @@ func c13RunLogs(r *ev.R, name, menuSize string, depth int) (*c13Sys, mc.Result) 
 		Name:     name,
 		New:      s.newInst,
 		MaxDepth: depth,
+		// a diverging log is extended all the same: independent divergences of longer logs are attributed to their own
+		// smallest diverging batch instead of being hidden behind the first one
+		KeepGoing: true,
 		Bounds: map[string]any{"menu": len(s.menu), "menu_refused_commands": refused, "max_log_length": depth,
 			"variants": "all 2^(n-1) batch partitions; restart at every prefix 1..n with replay from the durable applied index; snapshot at every prefix 0..n -> fresh DB -> rest"},
-		Note: "no merging (a state is a command log; batches span the whole log); a refused command ends the log (the slot fail-stops)",
+		Note: "no merging (a state is a command log; batches span the whole log); a refused command ends the log (the slot fail-stops); logs are extended past a divergence (KeepGoing), every divergence is attributed to the smallest batch that reproduces it",
 	})
 	r.Count(name+".partition_runs", s.partitionRuns.Load())
 	r.Count(name+".restart_runs", s.restartRuns.Load())
